@@ -14,6 +14,11 @@ ENGINES = [
 NOTES = "bin/check <Cnn>: legs M (TLC model check), G (TLC-generated behaviours replayed into the code), T (recorded traces validated by TLC). Exit 2 = inconclusive, never a violation. See DESIGN.md."
 NOT_APPLICABLE = {}
 CHECKS = {
+    "C18": {
+        "technique": "TLA+ spec CommentLexer (mode machine per rune, pinned language tables): TLC enumerates every token string up to a bound per language class, each replayed into the real Parse/ChunkIterator; seeded long programs validated by TLC",
+        "text": "The reference lexer of the property is an explicit TLA+ mode machine; TLC checks its own laws (order, line bounds, chunk law) and enumerates all inputs <= 5 tokens (6 thorough) over delimiter-rich alphabets for all 21 behaviour classes covering the 49 Language values; the real parser must agree on every one, for every language of the class, in ASCII and multi-byte concretisations. Long seeded programs are validated by TLC against the same spec.",
+        "note": "language tables are a pinned snapshot; unterminated trailing lexemes may be dropped or reported; invalid UTF-8 not enumerated; 'consecutive lines' read as start lines differing by <= 1 (pinned by the repository's own test).",
+    },
     "C20": {
         "technique": "TLA+ specs Containers/PQueue: TLC model check + every TLC-enumerated behaviour replayed into the real types + recorded traces validated by TLC",
         "text": "TLC explores the set algebra spec and the as-built heap transcription exhaustively for small universes; every generated behaviour (all ops from every abstract state, depth 2; deep single-object runs; queue runs of length 5) is replayed on StringSet, IntSet and pq.Queue with the state compared white-box after each step; seeded long runs are validated event by event against the specs.",
